@@ -807,6 +807,15 @@ MUTANTS = [
       "                        self.write(self.filepath, overwrite=True)\n"
       "                    self.write_shell_update(self.filepath, -1)\n\n"
       "                if self.f_live <= f_live:\n", 'C05'),
+    M('range-order-nan-passes', PR, "            if not dist[0] < dist[1]:", "            if dist[0] >= dist[1]:", 'C15'),
+    M('range-order-nan-passes-unpacked', PR,
+      "            if not dist[0] < dist[1]:\n                raise ValueError(\"The upper bound of the range must be \" +\n"
+      "                                 \"larger than the lower bound.\")\n"
+      "            dist = uniform(loc=dist[0], scale=dist[1] - dist[0])\n",
+      "            lower, upper = dist\n"
+      "            if lower >= upper:\n                raise ValueError(\"The upper bound of the range must be \" +\n"
+      "                                 \"larger than the lower bound.\")\n"
+      "            dist = uniform(loc=lower, scale=upper - lower)\n", 'C15'),
     M('job-returns-the-caller', N,
       "        bound.sample(n_points=n_points, return_points=False)\n        return bound\n",
       "        bound.sample(n_points=n_points, return_points=False)\n        return self\n", 'C08 C03'),
@@ -825,7 +834,7 @@ BENIGN = [
       "                                 \"elements, the lower and the upper bound.\")\n"
       "            if not dist[0] < dist[1]:\n",
       "            if len(dist) != 2:\n                raise ValueError('A range has two elements.')\n"
-      "            if dist[0] >= dist[1]:\n", ALL),
+      "            if not dist[0] < dist[1]:\n", ALL),
     M('physical-points-float64', PR, "phys_points = np.zeros_like(points, dtype=float)",
       "phys_points = np.zeros_like(points, dtype=np.float64)", ALL),
     M('physical-points-zeros-shape', PR, "phys_points = np.zeros_like(points, dtype=float)",
@@ -848,10 +857,18 @@ BENIGN = [
       "        if not isinstance(discard_exploration, bool):\n            raise TypeError(\"'discard_exploration' must be a bool.\")\n\n        t_start = time()", ALL),
     M('fixed-value-np-full', PR, "np.ones(phys_points.shape[:-1]) * dist",
       "np.full(phys_points.shape[:-1], dist, dtype=float)", ALL),
-    M('range-order-swapped-operands', PR, "            if not dist[0] < dist[1]:", "            if dist[1] <= dist[0]:", ALL),
+    M('range-order-swapped-operands', PR, "            if not dist[0] < dist[1]:", "            if not dist[1] > dist[0]:", ALL),
     M('range-length-positive-form', PR,
       "            if len(dist) != 2:\n                raise ValueError(",
       "            if not len(dist) == 2:\n                raise ValueError(", ALL),
+    M('range-unpacked', PR,
+      "            if not dist[0] < dist[1]:\n                raise ValueError(\"The upper bound of the range must be \" +\n"
+      "                                 \"larger than the lower bound.\")\n"
+      "            dist = uniform(loc=dist[0], scale=dist[1] - dist[0])\n",
+      "            lower, upper = dist\n"
+      "            if not lower < upper:\n                raise ValueError(\"The upper bound of the range must be \" +\n"
+      "                                 \"larger than the lower bound.\")\n"
+      "            dist = uniform(loc=lower, scale=upper - lower)\n", ALL),
     M('job-copy-renamed', N,
       "        bound = copy.deepcopy(self)\n        bound.reset(rng=rng)\n"
       "        bound.sample(n_points=n_points, return_points=False)\n        return bound\n",
